@@ -1,4 +1,6 @@
 import LPVerif.Bridge.Explicit
+import LPVerif.Lemmas.Skel
+import LPVerif.Generated.Skeletons
 /-!
 # C14 — `@profile` is inert unless profiling was requested
 
@@ -190,5 +192,42 @@ theorem show_writes_exactly (c : WriteCfg) (pfx ts : String) :
 
 /-- every output kind occurs once in `show` -/
 theorem show_keys_once : (showTable.map Prod.fst).Nodup := by decide
+
+/-! ## under kernprof: the hand-over happens before the program runs, in every run mode
+
+Over the control skeleton of `kernprof._main` dumped from the tree (`kernprofFromInstall`: from the first statement that
+mentions the global profiler to the end).  `kernprof_handover` above says what `_kernprof_overwrite` does to the
+decorator; the theorems here say that kernprof *calls* it — whatever the option set (`-l`, `-b`, `-p`, `-m`, `-i`, none:
+every truth value of every other condition) — before any statement that runs the program. -/
+section kernprofSide
+open LPVerif.Skel
+
+/-- the statements of `_main` that run the profiled program -/
+def programLeaves : List Nat := role_execfile ++ role_run_module ++ role_autoprofile ++ role_runctx
+
+def handoverFirst : Out → List Nat → Bool := fun _ log => before role_install programLeaves log
+def builtinFirst : Out → List Nat → Bool := fun _ log => before role_kp_builtins_set programLeaves log
+
+/-- not vacuous: the skeleton contains the hand-over statement, its guard, and the five statements that run the program -/
+theorem kernprof_leaves_exist :
+    role_install.length = 1 ∧ role_if_global.length = 1 ∧ role_if_builtin.length = 1 ∧ role_kp_builtins_set.length ≥ 1 ∧
+    programLeaves.length ≥ 5 := by decide
+
+/-- **C14 (under kernprof it hands functions to kernprof's profiler).**  In every environment in which the global
+    `@profile` exists — every option set, every outcome of every statement that may raise — `_kernprof_overwrite(prof)`
+    is called before the first statement that runs the program. -/
+theorem kernprof_hands_over_before_program (env : Skel.Env Nat) (hg : ∀ c ∈ role_if_global, env.cond c = true) (k : Nat) :
+    handoverFirst (Skel.exec env kernprofFromInstall k).1 (Skel.exec env kernprofFromInstall k).2.1 = true :=
+  forall_env_when role_if_global kernprofFromInstall handoverFirst (by decide +kernel) env hg k
+
+/-- with `-l` / `-b` (`options.builtin`), the builtin `profile` is kernprof's profiler before the program runs -/
+theorem kernprof_builtin_before_program (env : Skel.Env Nat) (hb : ∀ c ∈ role_if_builtin, env.cond c = true) (k : Nat) :
+    builtinFirst (Skel.exec env kernprofFromInstall k).1 (Skel.exec env kernprofFromInstall k).2.1 = true :=
+  forall_env_when role_if_builtin kernprofFromInstall builtinFirst (by decide +kernel) env hb k
+
+/-- the hypothesis matters: without a global profiler nothing is handed over (so the check is not trivially true) -/
+example : checkAll kernprofFromInstall handoverFirst = false := by decide +kernel
+
+end kernprofSide
 
 end LPVerif.Props.C14
